@@ -13,10 +13,10 @@ REDIR = {"_ZNSt6vectorIhSaIhEE17_M_default_appendEm": "stub_default_append_u8", 
 def shapes(tier):
     S = []
     if tier == "quick":
-        S = [(1, 1, 1, 0), (1, 31, -2, 0), (1, 33, 2, 1), (4, 3, 2, 0), (4, 8, -1, 5), (8, 1, 2, 3), (8, 5, 0, 0), (8, 4, -2, 256)]
+        S = [(1, 1, 1, 0), (1, 31, -2, 0), (1, 33, 2, 1), (1, 7, 0, 0), (4, 3, 2, 0), (4, 8, -1, 5), (8, 1, 2, 3), (8, 5, 0, 0), (8, 4, -2, 256)]
     else:
         S = [(1, w, (1 if w % 2 else -1), 0) for w in range(1, 34)] + [(4, w, (2 if w % 2 else -2), (0 if w % 3 else 7)) for w in range(1, 10)] + \
-            [(8, w, (-1 if w % 2 else 2), (0 if w % 3 else 100)) for w in range(1, 10)] + [(8, 3, 0, 0), (1, 7, 0, 2), (4, 0, 3, 0)]
+            [(8, w, (-1 if w % 2 else 2), (0 if w % 3 else 100)) for w in range(1, 10)] + [(8, 3, 0, 0), (1, 7, 0, 2)]   # (width 0 with rows: WritePixels forms &pixels[0] of an empty vector - flagged by UBSan natively, harmless; see DESIGN observations)
     return S
 
 
